@@ -289,8 +289,15 @@ def cmap_reader_methods(ck):
             parse = m
     if read is not None and parse is None:
         _paired_by_position(ck, read)
+    if parse is None and read is not None:
+        # the per-molecule parser moved out of the class: a function of the module that builds the OpticalMap and is handed to apply
+        for f in p.nontest_functions():
+            if f.module is cr.module and not f.is_lambda and f.cls is None and "OpticalMap(" in ast.unparse(f.node) \
+                    and "readFile" not in ast.unparse(f.node):
+                parse = f
     if read is None or parse is None:
         raise AnalysisError(f"{cr.where}: CmapReader's reading method / per-molecule parser not found")
+    ck.ctx.keep_calls.update((read.qualname, parse.qualname))
     return read, parse
 
 
@@ -441,6 +448,7 @@ def private_anchor(ctx, class_name: str, name: str, root: str, calls=(), returns
     if fi is not None:
         return fi
     cands = []
+    ctx_keep = ctx.keep_calls
     for f in ctx.p.nontest_functions():
         if f.is_lambda or short(f) == root or not f.name.startswith("_") or (f.name.startswith("__") and f.name.endswith("__")):
             continue
@@ -451,4 +459,5 @@ def private_anchor(ctx, class_name: str, name: str, root: str, calls=(), returns
     if len(cands) != 1:
         raise AnalysisError(f"anchor method {class_name}.{name} not found ({ci.where}); by role (private, only reached from {root}, "
                             f"calls {sorted(calls)}): {[short(c) for c in cands]}")
+    ctx_keep.add(cands[0].qualname)
     return cands[0]
